@@ -103,6 +103,9 @@ func ParseString(s string) (dep.Type, error) {
 				items[w] = uq
 				w++
 				quoted = quoted[:0]
+				// i already points past the closing field and the
+				// outer loop increments it again.
+				i--
 				break
 			}
 		}
